@@ -49,6 +49,7 @@ impl<A: Ord + Clone> CmRDT for GCounter<A> {
     type Validation = Infallible;
     closed spec fn cm_inv(&self) -> bool { self.inner.cm_inv() }
     open spec fn cm_pre(&self, op: &Dot<A>) -> bool { true }
+    open spec fn cm_post(old_: &Self, op: &Dot<A>, new_: &Self) -> bool { true }
 
 //@extract fn src/gcounter.rs "CmRDT for GCounter" validate_op
     fn validate_op(&self, _op: &Self::Op) -> /*@ (r: @*/ Result<(), Self::Validation> /*@ ) @*/
@@ -71,6 +72,7 @@ impl<A: Ord + Clone> CvRDT for GCounter<A> {
     type Validation = Infallible;
     closed spec fn cv_inv(&self) -> bool { self.inner.cv_inv() }
     open spec fn cv_pre(&self, other: &Self) -> bool { true }
+    open spec fn cv_post(old_: &Self, other: &Self, new_: &Self) -> bool { true }
 
 //@extract fn src/gcounter.rs "CvRDT for GCounter" validate_merge
     fn validate_merge(&self, _other: &Self) -> /*@ (r: @*/ Result<(), Self::Validation> /*@ ) @*/
@@ -91,6 +93,7 @@ impl<A: Ord + Clone> CvRDT for GCounter<A> {
 
 impl<A: Ord> ResetRemove<A> for GCounter<A> {
     closed spec fn rr_inv(&self) -> bool { self.inner.rr_inv() }
+    open spec fn rr_post(old_: &Self, clock: &VClock<A>, new_: &Self) -> bool { true }
 
 //@extract fn src/gcounter.rs "ResetRemove for GCounter" reset_remove
     fn reset_remove(&mut self, clock: &VClock<A>)
